@@ -220,7 +220,7 @@ theorem ssrb_targets_exact (pin pout : PDI) (kSeg kView trim maxSegArg kTof : In
     (hbit : pin.minTang ≤ bi.tang ∧ bi.tang ≤ pin.maxTang)
     (hbo : pout.toGeom.binForDetPair dp = some bo) :
     (bo ∈ targets pin pout bi ↔ (pout.minTang ≤ bo.tang ∧ bo.tang ≤ pout.maxTang ∧ pout.minTof ≤ bo.tof ∧ bo.tof ≤ pout.maxTof)) ∧
-    (0 < pout.tofMash → ∀ x ∈ targets pin pout bi, x = bo) := by
+    ((0 < pout.tofMash ∨ (pout.minTof = 0 ∧ pout.maxTof = 0)) → ∀ x ∈ targets pin pout bi, x = bo) := by
   obtain ⟨hp, hview, htang⟩ := ssrb_commutes_with_binning pin pout kSeg kView trim maxSegArg kTof hinfo hk wf mIn W hmash hmIn hV hW hkV
     htof0 dp hv bi bo hbi hbir hbo
   obtain ⟨_, _, hviews, _⟩ := ssrbInfo_seg pin pout kSeg kView trim maxSegArg kTof hinfo
@@ -255,8 +255,27 @@ theorem ssrb_targets_exact (pin pout : PDI) (kSeg kView trim maxSegArg kTof : In
       exact ⟨⟨by omega, by omega⟩, ⟨og, hog, ha1, ha2, h3, h4⟩, hp, hview, htang⟩
   · intro hTof x hx
     rw [mem_targets, hkv] at hx
-    obtain ⟨_, _, hpx, hvx, htx⟩ := hx
-    obtain ⟨e1, e2, e3⟩ := pullsSino_unique pin pout kSeg kView trim maxSegArg kTof hinfo hk hodd wf hTof _ _ _ _ _ _ _ _ _ hpx hp
+    obtain ⟨_, hxm, hpx, hvx, htx⟩ := hx
+    rw [mem_outSinos] at hxm
+    obtain ⟨_, _, _, _, hx5, hx6⟩ := hxm
+    have hpo : pout.tofMash = 0 ∨ 0 < pout.tofMash := by
+      obtain ⟨t0, t1⟩ := ssrbInfo_tofMash pin pout kSeg kView trim maxSegArg kTof hinfo
+      rcases htof0 with h | ⟨h1', _, _, h4'⟩
+      · exact Or.inl (t0 h)
+      · right
+        rw [(t1 h1' h4').1]
+        exact Int.mul_pos h1' (t1 h1' h4').2
+    have hTof' : 0 < pout.tofMash ∨ (pout.minTof = pout.maxTof ∧ pout.minTof ≤ x.tof ∧ x.tof ≤ pout.maxTof ∧ pout.minTof ≤ bo.tof ∧ bo.tof ≤ pout.maxTof) := by
+      rcases hTof with h | ⟨h1, h2⟩
+      · exact Or.inl h
+      · rcases hpo with hz | hpos
+        · right
+          have eto : pout.toGeom.tofMash = 0 := hz
+          have hbt : bo.tof = 0 := by
+            rcases hco with ⟨_, _, ht⟩ | ⟨_, _, ht⟩ <;> rw [ht, eto] <;> simp
+          omega
+        · exact Or.inl hpos
+    obtain ⟨e1, e2, e3⟩ := pullsSino_unique pin pout kSeg kView trim maxSegArg kTof hinfo hk hodd wf _ _ _ _ _ _ _ _ _ hTof' hpx hp
     cases x; cases bo
     simp only at e1 e2 e3 hvx htx hview htang
     simp only [Bin.mk.injEq]
